@@ -1,15 +1,20 @@
-//! One simulated run = one shuttle execution on a fresh OS thread, under a seeded scheduler and a seeded
-//! hash order, with the history recorder attached.
+//! One simulated run = one shuttle execution under a seeded scheduler and a seeded hash order, with the
+//! history recorder attached.
+//!
+//! Executions are *pooled*: a long-lived "sim thread" runs many executions inside one
+//! `shuttle::Runner::run` call, so that coroutine stacks are reused (in this sandbox page-table
+//! operations - mmap/munmap/thread creation - are extremely slow when 16 processes do them at once).
+//! A run that fails (panic, deadlock, step bound) unwinds out of `Runner::run`; its sim thread is then
+//! abandoned and the next run gets a new one. Everything a run depends on is reset at its start:
+//! recorder, timers, hash seed (collections seam), rFSM's static counters (inside the execution).
 
 use crate::sched::{SchedKind, SchedRecord, SimScheduler};
 use rfsm_verif_seams::rec::{self, Recorder};
 use serde::{Deserialize, Serialize};
+use shuttle::scheduler::{Schedule, Scheduler, Task, TaskId};
 use std::cell::RefCell;
+use std::sync::mpsc::{channel, Receiver, Sender};
 use std::sync::{Arc, Mutex, Once};
-
-extern "C" {
-    fn verif_seed_hash(s: u64);
-}
 
 #[derive(Clone, Debug, Serialize, Deserialize, PartialEq)]
 pub struct TaskLockState {
@@ -47,6 +52,7 @@ struct PanicNote {
 
 thread_local! {
     static LAST_PANIC: RefCell<Option<PanicNote>> = const { RefCell::new(None) };
+    static CURRENT_DRIVER: RefCell<Option<Box<dyn FnOnce() + Send>>> = const { RefCell::new(None) };
 }
 
 static HOOK: Once = Once::new();
@@ -64,16 +70,18 @@ fn install_panic_hook() {
             let location = info.location().map(|l| format!("{}:{}", l.file(), l.line())).unwrap_or_default();
             let task = rec::current_task();
             LAST_PANIC.with(|p| {
-                let mut p = p.borrow_mut();
-                if p.is_none() {
-                    let (session, holds, task_name) = rec::with(|r| {
-                        (
-                            r.task_session.get(&task).copied().unwrap_or(0),
-                            r.held.get(&task).map(|v| v.iter().map(|x| x.1.to_string()).collect()).unwrap_or_default(),
-                            r.task_names.get(&task).cloned().unwrap_or_default(),
-                        )
-                    });
-                    *p = Some(PanicNote { msg, location, task, session, holds, task_name });
+                if let Ok(mut p) = p.try_borrow_mut() {
+                    if p.is_none() {
+                        let (session, holds, task_name) = rec::try_with(|r| {
+                            (
+                                r.task_session.get(&task).copied().unwrap_or(0),
+                                r.held.get(&task).map(|v| v.iter().map(|x| x.1.to_string()).collect()).unwrap_or_default(),
+                                r.task_names.get(&task).cloned().unwrap_or_default(),
+                            )
+                        })
+                        .unwrap_or_default();
+                        *p = Some(PanicNote { msg, location, task, session, holds, task_name });
+                    }
                 }
             });
         }));
@@ -83,12 +91,7 @@ fn install_panic_hook() {
 fn lock_states() -> Vec<TaskLockState> {
     rec::lock_state()
         .into_iter()
-        .map(|(task, name, held, w)| TaskLockState {
-            task,
-            name,
-            holds: held.iter().map(|s| s.to_string()).collect(),
-            wants: w.map(|s| s.to_string()),
-        })
+        .map(|(task, name, held, w)| TaskLockState { task, name, holds: held.iter().map(|s| s.to_string()).collect(), wants: w.map(|s| s.to_string()) })
         .collect()
 }
 
@@ -96,45 +99,104 @@ pub struct RunCfg {
     pub kind: SchedKind,
     pub sched_seed: u64,
     pub hash_seed: u64,
-    pub max_steps: usize,
     pub record_log: bool,
-    pub stack_size: usize,
 }
 
-pub fn run_one<F>(driver: F, cfg: RunCfg) -> RunResult
-where
-    F: FnOnce() + Send + 'static,
-{
-    install_panic_hook();
-    let handle = std::thread::Builder::new()
-        .name("sim-run".into())
-        .stack_size(8 << 20)
-        .spawn(move || {
-            unsafe { verif_seed_hash(cfg.hash_seed) };
-            rec::reset(cfg.record_log);
-            rfsm_verif_seams::timer::reset();
-            LAST_PANIC.with(|p| *p.borrow_mut() = None);
-            crate::hooks::install_seam_hooks();
-            let (sched, srec) = SimScheduler::new(cfg.kind.clone(), cfg.sched_seed);
-            let mut config = shuttle::Config::new();
-            config.stack_size = cfg.stack_size;
-            config.failure_persistence = shuttle::FailurePersistence::None;
-            config.max_steps = shuttle::MaxSteps::FailAfter(cfg.max_steps);
-            config.silence_warnings = true;
-            let runner = shuttle::Runner::new(sched, config);
-            let cell = Mutex::new(Some(driver));
-            let res = std::panic::catch_unwind(std::panic::AssertUnwindSafe(|| {
-                runner.run(move || {
-                    let f = cell.lock().unwrap().take();
-                    if let Some(f) = f {
-                        f()
-                    }
-                })
-            }));
-            let note = LAST_PANIC.with(|p| p.borrow_mut().take());
-            let mut outcome = match res {
-                Ok(_) => Outcome::Completed,
-                Err(payload) => {
+struct Job {
+    driver: Box<dyn FnOnce() + Send>,
+    cfg: RunCfg,
+}
+
+struct PoolScheduler {
+    jobs: Receiver<Job>,
+    results: Sender<RunResult>,
+    inner: Option<SimScheduler>,
+    srec: Option<Arc<Mutex<SchedRecord>>>,
+    /// shared with the thread body so that a failing run can be finalised there
+    current: Arc<Mutex<Option<Arc<Mutex<SchedRecord>>>>>,
+}
+
+fn finalize(outcome: Outcome, srec: &Arc<Mutex<SchedRecord>>) -> RunResult {
+    let sched = std::mem::take(&mut *srec.lock().unwrap());
+    let mut outcome = outcome;
+    if let Some(d) = &sched.replay_diverged {
+        outcome = Outcome::ReplayDiverged(d.clone());
+    }
+    rfsm_verif_seams::driver::fini();
+    let mut recorder = rec::take();
+    // GlobalData arcs contain shuttle channels: never drop them outside an execution
+    std::mem::forget(std::mem::take(&mut recorder.session_global));
+    RunResult { outcome, rec: recorder, sched }
+}
+
+impl Scheduler for PoolScheduler {
+    fn new_execution(&mut self) -> Option<Schedule> {
+        // the previous execution (if any) completed normally
+        if let Some(srec) = self.srec.take() {
+            *self.current.lock().unwrap() = None;
+            let _ = self.results.send(finalize(Outcome::Completed, &srec));
+        }
+        let job = match self.jobs.recv() {
+            Ok(j) => j,
+            Err(_) => return None,
+        };
+        rfsm_verif_seams::collections::seed(job.cfg.hash_seed);
+        rec::reset(job.cfg.record_log);
+        rfsm_verif_seams::timer::reset();
+        LAST_PANIC.with(|p| *p.borrow_mut() = None);
+        let (sched, srec) = SimScheduler::new(job.cfg.kind.clone(), job.cfg.sched_seed);
+        self.inner = Some(sched);
+        *self.current.lock().unwrap() = Some(srec.clone());
+        self.srec = Some(srec);
+        CURRENT_DRIVER.with(|d| *d.borrow_mut() = Some(job.driver));
+        self.inner.as_mut().unwrap().new_execution()
+    }
+
+    fn next_task(&mut self, runnable: &[&Task], current: Option<TaskId>, is_yielding: bool) -> Option<TaskId> {
+        self.inner.as_mut().unwrap().next_task(runnable, current, is_yielding)
+    }
+
+    fn next_u64(&mut self) -> u64 {
+        self.inner.as_mut().unwrap().next_u64()
+    }
+}
+
+pub struct SimPool {
+    tx: Option<Sender<Job>>,
+    rx: Receiver<RunResult>,
+    thread: Option<std::thread::JoinHandle<()>>,
+    pub dead: bool,
+    pub runs: u64,
+}
+
+impl SimPool {
+    pub fn new(max_steps: usize, stack_size: usize) -> SimPool {
+        install_panic_hook();
+        let (jtx, jrx) = channel::<Job>();
+        let (rtx, rrx) = channel::<RunResult>();
+        let thread = std::thread::Builder::new()
+            .name("sim".into())
+            .stack_size(16 << 20)
+            .spawn(move || {
+                crate::hooks::install_seam_hooks();
+                let current: Arc<Mutex<Option<Arc<Mutex<SchedRecord>>>>> = Arc::new(Mutex::new(None));
+                let sched = PoolScheduler { jobs: jrx, results: rtx.clone(), inner: None, srec: None, current: current.clone() };
+                let mut config = shuttle::Config::new();
+                config.stack_size = stack_size;
+                config.failure_persistence = shuttle::FailurePersistence::None;
+                config.max_steps = shuttle::MaxSteps::FailAfter(max_steps);
+                config.silence_warnings = true;
+                let runner = shuttle::Runner::new(sched, config);
+                let res = std::panic::catch_unwind(std::panic::AssertUnwindSafe(|| {
+                    runner.run(|| {
+                        let f = CURRENT_DRIVER.with(|d| d.borrow_mut().take());
+                        if let Some(f) = f {
+                            f()
+                        }
+                    })
+                }));
+                if let Err(payload) = res {
+                    let note = LAST_PANIC.with(|p| p.borrow_mut().take());
                     let pmsg = if let Some(s) = payload.downcast_ref::<&str>() {
                         s.to_string()
                     } else if let Some(s) = payload.downcast_ref::<String>() {
@@ -142,7 +204,7 @@ where
                     } else {
                         note.as_ref().map(|n| n.msg.clone()).unwrap_or_else(|| "<unknown panic>".into())
                     };
-                    if pmsg.starts_with("deadlock!") {
+                    let outcome = if pmsg.starts_with("deadlock!") {
                         Outcome::Deadlock { msg: pmsg, tasks: lock_states() }
                     } else if pmsg.starts_with("exceeded max_steps") {
                         Outcome::StepBound { tasks: lock_states() }
@@ -155,32 +217,59 @@ where
                         } else {
                             Outcome::Panic { msg: pmsg, location: n.location, task: n.task, task_name: n.task_name, session: n.session, holds: n.holds }
                         }
+                    };
+                    let srec = current.lock().unwrap().take();
+                    if let Some(srec) = srec {
+                        let _ = rtx.send(finalize(outcome, &srec));
                     }
                 }
-            };
-            let sched = std::mem::take(&mut *srec.lock().unwrap());
-            if let Some(d) = &sched.replay_diverged {
-                outcome = Outcome::ReplayDiverged(d.clone());
-            }
-            rfsm_verif_seams::driver::fini();
-            let mut recorder = rec::take();
-            // GlobalData arcs contain shuttle channels: never drop them outside an execution
-            std::mem::forget(std::mem::take(&mut recorder.session_global));
-            RunResult { outcome, rec: recorder, sched }
-        })
-        .expect("spawn sim-run thread");
-    match handle.join() {
-        Ok(r) => r,
-        Err(_) => RunResult {
-            outcome: Outcome::Harness("HARNESS: sim-run thread panicked outside the execution".into()),
+            })
+            .expect("spawn sim thread");
+        SimPool { tx: Some(jtx), rx: rrx, thread: Some(thread), dead: false, runs: 0 }
+    }
+
+    /// Run one execution. After a failing run the pool is dead and must be replaced.
+    pub fn run(&mut self, driver: Box<dyn FnOnce() + Send>, cfg: RunCfg) -> RunResult {
+        self.runs += 1;
+        let harness = |m: &str| RunResult {
+            outcome: Outcome::Harness(format!("HARNESS: {}", m)),
             rec: {
                 rec::reset(false);
                 rec::take()
             },
             sched: SchedRecord::default(),
-        },
+        };
+        if self.dead || self.tx.as_ref().unwrap().send(Job { driver, cfg }).is_err() {
+            self.dead = true;
+            return harness("sim thread not available");
+        }
+        // A completed run is reported when the scheduler is asked for the next execution, which happens
+        // right after the execution's cleanup; a failed run is reported by the thread body.
+        match self.rx.recv() {
+            Ok(r) => {
+                if !matches!(r.outcome, Outcome::Completed) {
+                    self.dead = true;
+                }
+                r
+            }
+            Err(_) => {
+                self.dead = true;
+                harness("sim thread died without a result")
+            }
+        }
     }
 }
 
-/// Shared helper: keep an `Arc` to data produced inside the run (e.g. final configurations).
-pub type Shared<T> = Arc<Mutex<T>>;
+impl Drop for SimPool {
+    fn drop(&mut self) {
+        self.tx.take();
+        if let Some(t) = self.thread.take() {
+            if self.dead {
+                // a failed execution may leave the thread unwinding or finished; do not wait for leaks
+                let _ = t.join();
+            } else {
+                let _ = t.join();
+            }
+        }
+    }
+}
